@@ -368,6 +368,9 @@ class _FileListCacher:
     def _changed(self, resource):
         if resource.is_folder():
             self.files = None
+        elif self.files is not None and resource not in self.files:
+            # writing to a file that was not there creates it
+            self.files = None
 
     def _invalid(self, resource, new_resource=None):
         self.files = None
